@@ -1,7 +1,7 @@
 (* DriverModel.v — the transcripts the correspondence check compares: for each family of driver case
    the model computes exactly the observables the C++ driver prints.  Executable; extracted. *)
 From Coq Require Import ZArith List Bool.
-From MdspanVerif Require Import MachInt ListAux Layouts Extents Convert View MdArray Submdspan.
+From MdspanVerif Require Import MachInt ListAux Layouts Extents Convert View MdArray Submdspan SubSpec Concurrency.
 Import ListNotations.
 Local Open Scope Z_scope.
 
@@ -257,7 +257,7 @@ Definition p_mapping (ty : ptype) (es ss : list Z) : mapping :=
 
 (* constructor kinds: 0 (h, dynamic extents...)  1 (h, all extents...)  2 (h, array of dynamic)  3 (h, array of all)
    5 (h, extents)  6 (h, mapping)  7 (h, mapping, accessor) *)
-Definition p_ctor (ty : ptype) (kind : nat) (h : Z) (es ss : list Z) : res entry :=
+Definition p_ctor (ty : ptype) (kind : nat) (h : Z) (es ss es2 ss2 : list Z) : res entry :=
   let t := pt_t ty in
   let acc := if Nat.eqb (pt_acc ty) 0 then AccDefault else AccUser (10 + h) in
   match kind with
@@ -265,16 +265,17 @@ Definition p_ctor (ty : ptype) (kind : nat) (h : Z) (es ss : list Z) : res entry
                       (ctor_from_values t (pt_pat ty) (fun x => p_mapping ty x ss) h false (pick_dyn_vals (pt_pat ty) es))
   | 1%nat | 3%nat => rmap (fun e => mkentry (en_t e) (en_pat e) (mkview h (v_map (en_view e)) acc))
                       (ctor_from_values t (pt_pat ty) (fun x => p_mapping ty x ss) h true es)
+  | 8%nat => Ok (ctor_from_mapping t (pt_pat ty) h (p_mapping ty (ext_values t (pt_pat ty) es2) ss2) acc)   (* the second mapping value *)
   | _ => Ok (ctor_from_mapping t (pt_pat ty) h (p_mapping ty (ext_values t (pt_pat ty) es) ss) acc)
   end.
 
-Definition p_step (tys : list ptype) (es ss : list Z) (p : list pentry) (o : pop) : res (list pentry) :=
+Definition p_step (tys : list ptype) (es ss es2 ss2 : list Z) (p : list pentry) (o : pop) : res (list pentry) :=
   let ents := map snd p in
   let retag (l : list entry) := combine (map fst p) l in
   match o with
   | PCtor ty kind h =>
       match nth_error tys ty with
-      | Some pty => rmap (fun e => p ++ [(ty, e)]) (p_ctor pty kind h es ss)
+      | Some pty => rmap (fun e => p ++ [(ty, e)]) (p_ctor pty kind h es ss es2 ss2)
       | None => UB
       end
   | PCopy i | PMove i => match nth_error p i with Some x => Ok (p ++ [x]) | None => UB end
@@ -305,16 +306,16 @@ Definition p_dump (p : list pentry) : res (list Z) :=
        Ok ([v_handle v; (match v_acc v with AccDefault => 0 | AccUser _ => 20 + v_handle v end);
             (match v_acc v with AccDefault => 0 | AccUser k => k end)] ++ exts (v_map v) ++ st))) p)).
 
-Fixpoint p_run (tys : list ptype) (es ss : list Z) (p : list pentry) (ops : list pop) : list tval :=
+Fixpoint p_run (tys : list ptype) (es ss es2 ss2 : list Z) (p : list pentry) (ops : list pop) : list tval :=
   match ops with
   | [] => []
   | o :: ops' =>
-      match p_step tys es ss p o with
+      match p_step tys es ss es2 ss2 p o with
       | UB => [TZ UB]
-      | Ok p' => TL (p_dump p') :: p_run tys es ss p' ops'
+      | Ok p' => TL (p_dump p') :: p_run tys es ss es2 ss2 p' ops'
       end
   end.
-Definition p_program (tys : list ptype) (es ss : list Z) (ops : list pop) : list tval := p_run tys es ss [] ops.
+Definition p_program (tys : list ptype) (es ss es2 ss2 : list Z) (ops : list pop) : list tval := p_run tys es ss es2 ss2 [] ops.
 
 (* ---- family R: mdarray ---------------------------------------------------------------------------- *)
 Inductive rop :=
@@ -349,4 +350,41 @@ Definition r_program (sv : mval) (arrN : option Z) (ops : list rop) : list tval 
   match mval_build sv with
   | UB => [TZ UB]
   | Ok m => r_run (mv_t sv) m (match arrN with Some n => CArray (Z.to_nat n) | None => CVector end) [] ops
+  end.
+
+(* ---- family T: threads sharing one view (C19) ------------------------------------------------------ *)
+(* an action as the harness writes it: kind (0 write, 1 read, 2 observe, 3 copy, 4 create sub-view),
+   derived view (0 = the shared view / a private copy, d+1 = d-th chain), form, index, value *)
+Inductive tact := TA (kind der form : nat) (idx : list Z) (x : Z).
+Definition form_of_nat (n : nat) : form := match n with 1%nat => FArray | 2%nat => FSpan | _ => FPack end.
+Definition t_action (ders : list (list (list slice))) (a : tact) : taction :=
+  let '(TA kind der f idx x) := a in
+  let levels := match der with O => [] | S d => nth d ders [] end in
+  match kind with
+  | 0%nat => TWrite levels (form_of_nat f) idx x
+  | 1%nat => TRead levels (form_of_nat f) idx
+  | 2%nat => TObserve
+  | 3%nat => TCopy
+  | _ => TSub levels
+  end.
+(* the buffer: 8 canary cells (-1), span cells holding 5000 + k, 8 canary cells; the view's handle is 8.
+   The result is the state after the sequential composition — by C19_interleaving_is_sequential the state
+   after every interleaving — preceded by the verdict of the verified race-freedom check. *)
+Definition t_threads (sv : mval) (ders : list (list (list slice))) (progs : list (list tact)) : list tval :=
+  match mval_build sv with
+  | UB => [TZ UB]
+  | Ok m =>
+    let t := mv_t sv in
+    match span_impl t m with
+    | UB => [TZ UB]
+    | Ok sp =>
+      let sh := mkshared t (mv_pat sv) (mkview 8 m AccDefault) in
+      let hp0 := repeat (-1) 8 ++ map (fun k => 5000 + Z.of_nat k) (seq 0 (Z.to_nat sp)) ++ repeat (-1) 8 in
+      match compile_all sh (map (map (t_action ders)) progs) with
+      | UB => [TZ UB]
+      | Ok cps =>
+        let st := crun (sequential cps) (mkcs hp0 (map (fun _ => []) progs)) in
+        TZ (Ok (if race_freeb cps then 1 else 0)) :: TL (Ok (cs_heap st)) :: map (fun l => TL (Ok l)) (cs_logs st) ++ [TZ (Ok 0)]
+      end
+    end
   end.
